@@ -227,6 +227,11 @@ def check_adapter(ctx):
                     base_list is not None and U(t.expand(
                         method_call(ev.node)[0])) == U(base_list):
                 args.append(U(ev.node.args[0]))
+            elif ev.kind == 'aug' and base_list is not None and \
+                    isinstance(getattr(ev, 'value', None), (ast.List,
+                                                            ast.Tuple)) \
+                    and U(t.expand(ev.node)) == U(base_list):
+                args.extend(U(x) for x in ev.value.elts)    # L += [x]
             elif ev.kind == 'call' and method_call(ev.node, 'pop') and \
                     not ev.node.args and base_list is not None and U(
                         t.expand(method_call(ev.node)[0])) == U(
@@ -239,6 +244,16 @@ def check_adapter(ctx):
         def sized(x):
             """(N -> size, subject) for len(A) / len(A[k:]) / A[k:] where N
             is len(A)"""
+            if isinstance(x, ast.BinOp) and isinstance(
+                    x.op, (ast.Sub, ast.Add)) and is_const(x.right) and \
+                    isinstance(x.right.value, int):
+                # len(A) - k / len(A) + k
+                inner = sized(x.left)
+                if inner is None:
+                    return None
+                k1 = x.right.value if isinstance(x.op, ast.Add) \
+                    else -x.right.value
+                return (lambda n, f=inner[0], k1=k1: f(n) + k1), inner[1]
             if isinstance(x, ast.Call) and U(x.func) == 'len' and len(
                     x.args) == 1:
                 x = x.args[0]
@@ -277,7 +292,7 @@ def check_adapter(ctx):
             if isinstance(ce, ast.Compare) and len(ce.ops) == 1 and \
                     type(ce.ops[0]) in OPS and is_const(
                         ce.comparators[0]) and sized(ce.left) and \
-                    isinstance(ce.left, ast.Call):
+                    isinstance(ce.left, (ast.Call, ast.BinOp)):
                 size, subj = sized(ce.left)
                 n0 = ce.comparators[0].value
                 op = OPS[type(ce.ops[0])]
@@ -298,9 +313,11 @@ def check_adapter(ctx):
     shapes = {k[0] for k in rows}
     for (args, _nothr, _k), (thr, kws, okshape, p) in rows.items():
         if not okshape or kws:
-            ctx.ob('C06.ADAPTER', False, W, f.qual, 'call shape %s %s' % (
-                args, kws), 'unrecognised argument passing in the adapter')
-            continue
+            raise AnalysisError(
+                'the adapter %s passes its arguments in a way the analysis '
+                'does not read (call shape %s %s on path %s): which checks '
+                'are handed the rule name is not decided' % (
+                    f.qual, args, kws, p.cond_text()[-120:]))
         if args not in (want4, want5):
             ctx.ob('C06.ADAPTER', False, W, f.qual,
                    'rule(%s)' % ', '.join(args),
